@@ -9,7 +9,7 @@ SPEC = {
     "required": ["q8_lawful", "constants_documented_unitary", "param_prims_documented", "param_prims_unitary",
                  "u2_is_u3_at_half_pi", "u3_decomposition", "controlled_is_direct_sum", "kron_is_kronecker",
                  "unitary_closed", "unitary_of_term", "loop_unitary_of_c04", "ordered_product_unitary",
-                 "param_live", "param_live_sensitive"],
+                 "param_live", "param_live_sensitive", "complex_is_model"],
     "drivers": ["drv_c05"],
     "harness_bin": "c05",
     "eq": vlib.hexfloat_eq(1e-12),
